@@ -88,6 +88,9 @@ impl World {
     }
     pub fn rel(&self, uri: &str) -> String {
         let base = self.folder_uri().to_string();
+        if uri == base {
+            return "$WS".to_string();
+        }
         uri.strip_prefix(&format!("{base}/")).unwrap_or(uri).to_string()
     }
 }
@@ -215,6 +218,9 @@ impl<'w> Peer<'w> {
 
     fn absorb(&mut self, out: Vec<Message>) -> Option<Value> {
         let mut resp = None;
+        // Within one step the order of published notifications follows HashMap iteration
+        // (legitimately): log the batch sorted.
+        let mut batch: Vec<String> = Vec::new();
         for m in out {
             match m {
                 Message::Notification(n) => {
@@ -222,17 +228,21 @@ impl<'w> Peer<'w> {
                         let uri = n.params["uri"].as_str().unwrap_or("").to_string();
                         norm_diags(self.world, &uri, &n.params, &mut self.diags);
                     }
-                    self.log.push_str(&format!("<N {} {}\n", n.method, canon_result(self.world, &n.params)));
+                    batch.push(format!("<N {} {}\n", n.method, canon_result(self.world, &n.params)));
                 }
                 Message::Response(r) => {
                     let v = r.result.clone().unwrap_or(Value::Null);
-                    self.log.push_str(&format!("<R {} {}\n", r.id, canon_result(self.world, &v)));
+                    batch.push(format!("<R {} {}\n", r.id, canon_result(self.world, &v)));
                     resp = Some(if r.error.is_some() { json!({"error": r.error.map(|e| e.message)}) } else { v });
                 }
                 Message::Request(r) => {
-                    self.log.push_str(&format!("<Q {}\n", r.method));
+                    batch.push(format!("<Q {}\n", r.method));
                 }
             }
+        }
+        batch.sort();
+        for l in batch {
+            self.log.push_str(&l);
         }
         resp
     }
@@ -766,6 +776,9 @@ pub fn run_scenario(scn: &Scenario, hook: Option<fn(&mut Exec, usize, &Ev)>) -> 
             }
         }
         let digest = digest64(ex.peer.log.as_bytes());
+        if let Ok(p) = std::env::var("OALSIM_DUMP_LOG") {
+            let _ = std::fs::write(p, &ex.peer.log);
+        }
         Outcome {
             violation: ex.violation.clone(),
             discarded: ex.discarded.clone(),
